@@ -132,10 +132,14 @@ func (a *Agent) GatherCandidates() error {
 		a.gatherCandidateCancel() // Cancel previous gathering routine
 		ctx, cancel := context.WithCancel(ctx)
 		a.gatherCandidateCancel = cancel
+		// A cycle canceled by Restart may still be winding down. The new done
+		// channel is closed only after that one has ended too, so that the
+		// teardown waits for every gathering routine and not just the latest.
+		prevDone := a.gatherCandidateDone
 		done := make(chan struct{})
 		a.gatherCandidateDone = done
 
-		go a.gatherCandidates(ctx, done)
+		go a.gatherCandidates(ctx, done, prevDone)
 	}); runErr != nil {
 		return runErr
 	}
@@ -143,8 +147,13 @@ func (a *Agent) GatherCandidates() error {
 	return gatherErr
 }
 
-func (a *Agent) gatherCandidates(ctx context.Context, done chan struct{}) { //nolint:cyclop
-	defer close(done)
+func (a *Agent) gatherCandidates(ctx context.Context, done chan struct{}, prevDone <-chan struct{}) { //nolint:cyclop
+	defer func() {
+		if prevDone != nil {
+			<-prevDone
+		}
+		close(done)
+	}()
 	applied, err := a.setGatheringState(ctx, GatheringStateGathering)
 	if err != nil {
 		a.log.Warnf("Failed to set gatheringState to GatheringStateGathering: %v", err)
